@@ -122,9 +122,21 @@ pub enum GenericIfData {
     },
 }
 
+// maximum nesting depth of /include directives inside A2ML
+// A file that (directly or indirectly) includes itself exceeds every limit; it is reported as an error
+const MAX_INCLUDE_DEPTH: usize = 64;
+
 // tokenize()
 // Tokenize the text of the a2ml section
 fn tokenize_a2ml(filename: &Filename, input: &str) -> Result<(Vec<TokenType>, String), String> {
+    tokenize_a2ml_nested(filename, input, 0)
+}
+
+fn tokenize_a2ml_nested(
+    filename: &Filename,
+    input: &str,
+    depth: usize,
+) -> Result<(Vec<TokenType>, String), String> {
     let mut amltokens = Vec::<TokenType>::new();
     let input_bytes = input.as_bytes();
     let datalen = input_bytes.len();
@@ -167,7 +179,8 @@ fn tokenize_a2ml(filename: &Filename, input: &str) -> Result<(Vec<TokenType>, St
         } else if input_bytes[bytepos..].starts_with(b"/include") {
             // copy any uncopied text before the include token
             complete_string.push_str(&input[copypos..startpos]);
-            let (mut tokresult, incfile_text) = tokenize_include(filename, input, &mut bytepos)?;
+            let (mut tokresult, incfile_text) =
+                tokenize_include(filename, input, &mut bytepos, depth)?;
             complete_string.push_str(&incfile_text);
             copypos = bytepos;
 
@@ -253,6 +266,7 @@ fn tokenize_include(
     filename: &Filename,
     input: &str,
     bytepos: &mut usize,
+    depth: usize,
 ) -> Result<(Vec<TokenType>, String), String> {
     let input_bytes = input.as_bytes();
     let datalen = input_bytes.len();
@@ -308,9 +322,15 @@ fn tokenize_include(
 
     // check if incname is an accessible file
     let incpathref = Path::new(&incfilename);
+    if depth >= MAX_INCLUDE_DEPTH {
+        return Err(format!(
+            "a2ml include files are nested too deeply at {}",
+            incpathref.display()
+        ));
+    }
     let loadresult = loader::load(incpathref);
     if let Ok(incfiledata) = loadresult {
-        tokenize_a2ml(&Filename::from(incpathref), &incfiledata)
+        tokenize_a2ml_nested(&Filename::from(incpathref), &incfiledata, depth + 1)
     } else {
         Err(format!("failed reading {}", incpathref.display()))
     }
